@@ -198,6 +198,12 @@ def run(ctx):
         ra = [rows["a%d" % i] for i in range(d["ka"])]
         rb = [rows["b%d" % i] for i in range(d["kb"])]
         if len(set(ra)) != 1 or len(set(rb)) != 1:
+            from props import c12
+            if not c12.premise_ok(c.records, d["kind"]):
+                # one sequence contains the other (guide-tree distance 0 as for a duplicate): the tree need not join the copies first,
+                # so the groups of the property are not formed; not a statement about the kernels (see C12's premise)
+                ctx.count("copies_not_grouped_(containment)")
+                continue
             fails.append(("identical copies received different rows", dict(case=c.describe(), rows=rows)))
             continue
         got = pair_cols(ra[0], rb[0])
